@@ -5,7 +5,7 @@ from .common import *
 
 META = {
     "level": "other",
-    "explanation": "Confinement and offset consistency of the six delimiting classes (Prefixed, FixedSized, OffsettedEnd, NullTerminated, NullStripped, ProcessXor): (R1) on every successful parse path the inner construct runs on a substream created in this method from data read from the outer stream, and nothing touches the outer stream after that read-out, so the outer position is fixed before the inner construct runs, whatever it consumes; (R2) the outer exit position is what the delimiter's contract says -- Prefixed: after the length field plus the announced length (minus the field's own size iff includelength); FixedSized: entry + length; OffsettedEnd: end + endoffset, with the tell/seek-end/tell/seek-back probe restoring the current position; NullTerminated: reads are exactly len(term) wide, the terminator is part of the region data iff `include`, the stream steps back by len(term) iff not `consume`, EOF is re-raised iff `require`; (R3) the substream is a BytesIOWithOffsets whose offset argument is a tell of the outer stream taken where the region's first byte lies, BytesIOWithOffsets.__init__ stores that offset, tell() adds it and absolute seek() subtracts the same attribute (relative seeks are passed through) and returns tell(). (R4) NullStripped hands the inner construct the region minus trailing bytes that were compared equal to the pad on that path: rstrip only for a one-byte pad, and for longer pads every shortening step of the end index (partial tail unit, whole units in the loop) is justified by an equality guard between exactly the dropped slice and the pad (prefix).",
+    "explanation": "Confinement and offset consistency of the six delimiting classes (Prefixed, FixedSized, OffsettedEnd, NullTerminated, NullStripped, ProcessXor): (R1) on every successful parse path the inner construct runs on a substream created in this method from data read from the outer stream, and nothing touches the outer stream after that read-out, so the outer position is fixed before the inner construct runs, whatever it consumes; (R2) the outer exit position is what the delimiter's contract says -- Prefixed: after the length field plus the announced length (minus the field's own size iff includelength); FixedSized: entry + length; OffsettedEnd: end + endoffset, with the tell/seek-end/tell/seek-back probe restoring the current position; NullTerminated: reads are exactly len(term) wide, the terminator is part of the region data iff `include`, the stream steps back by len(term) iff not `consume`, EOF is re-raised iff `require`; (R3) the substream is a BytesIOWithOffsets whose offset argument is a tell of the outer stream taken where the region's first byte lies, BytesIOWithOffsets.__init__ stores that offset, tell() adds it and absolute seek() subtracts the same attribute (relative seeks are passed through) and returns tell(). (R4) NullStripped hands the inner construct the region minus trailing bytes that were compared equal to the pad on that path: rstrip only for a one-byte pad, and for longer pads every shortening step of the end index (partial tail unit, whole units in the loop) is justified by an equality guard between exactly the dropped slice and the pad (prefix). (R5) the generated code of the delimiting classes agrees with the interpreter methods (shared with C04.R3).",
     "undecided": "behaviour for overlong regions beyond the stream_read length check; Transformed/Restreamed/ProcessRotateLeft/Tunnel substreams are plain by documentation ('do NOT use seeking/telling classes inside').",
     "trusted_base": ["python ast (3.12)", "sa.summ summariser", "sa.pos position algebra", "io.BytesIO semantics"],
     "assumptions": ["Tell/RawCopy/Pointer/Lazy use only stream_tell/stream_seek (C06.R1), hence see BytesIOWithOffsets.tell/seek"],
@@ -170,6 +170,9 @@ def run(ctx):
     ctx.floor("C08.R2", 12)
     ctx.floor("C08.R3", 12)
     ctx.floor("C08.R4", 6)
+    from . import C04
+    C04.shared_obligations(ctx, "C08.R5", {"Prefixed", "FixedSized", "NullTerminated", "NullStripped", "OffsettedEnd", "ProcessXor"})
+    ctx.floor("C08.R5", 4)
 
     # ---- BytesIOWithOffsets itself
     off = N.selfattr("parent_stream_offset")
